@@ -75,7 +75,7 @@ def draw_rule(r, spec, pool, p_good=0.85, static_bias=0.5):
   if op == 'FULLY_CONNECTED' and algo == A.MINMAX and r.random() < 0.12:
     cfg = r.choice(A.BLOCKWISE_RUNNABLE)
   regex = r.choice(pool) if r.random() < 0.55 else '.*'
-  return [regex, op, cfg, algo]
+  return [regex, op, cfg, A.bogus_spelling(r, algo)]
 
 
 def draw_edit(r, spec, pool, q, rules_so_far, faults=True):
